@@ -2,6 +2,9 @@ import AGV.Util.Sexp
 import AGV.Util.Judge
 import AGV.Model.Introspect
 import AGV.Spec.Introspect
+import AGV.Model.RustTy
+import AGV.Model.RustTyRef
+import AGV.Spec.RustTy
 
 open AGV AGV.Sexp AGV.Core AGV.Model.Introspect
 
@@ -54,6 +57,41 @@ def desc? : Sexp → Option Desc
   | .list [.atom "desc", .str q, m, s, .list ts] => do
     some { query := String.ofList q, mutation := ← optS? m, subscription := ← optS? s, types := ← ts.mapM type? }
   | _ => none
+
+-- ------------------------------------------------------------------ declared Rust types on the wire
+
+/-- the finding about `Box<T>` / `Arc<T>` / `&T` inside a list (Model/RustTy.lean) -/
+def ptrFinding : String := "C18-list-of-pointer-to-option-non-null"
+
+def rtyDefects (ids : List String) : AGV.Model.RustTy.Defects :=
+  { ptrQualifiedDefault := ids.contains ptrFinding }
+
+def typeRefS : TypeRef → Sexp
+  | .named n => .str n.toList
+  | .list t => .list [.atom "list", typeRefS t]
+  | .nonNull t => .list [.atom "nn", typeRefS t]
+
+/-- An `iv` / `fd` node of the declaration zoo may end with the declared Rust type
+    (`(iv n d TY df dep vis RTY)`, `(fd n d TY dep vis (IV…) RTY)`).  The hand-written type
+    reference must be what the specification makes of that Rust type (`Spec.RustTy.ref`); the node
+    is rewritten to the plain form carrying the type the crate's `type_name` /
+    `qualified_type_name` / `create_type_info` (with the toggles `D`) register for it. -/
+partial def rewriteRty (D : AGV.Model.RustTy.Defects) : Sexp → Except String Sexp
+  | .list [.atom "iv", n, d, ty, df, dp, v, r] => do
+    pure (.list [.atom "iv", n, d, ← regTy ty r, df, dp, v])
+  | .list [.atom "fd", n, d, ty, dp, v, .list args, r] => do
+    let args ← args.mapM (rewriteRty D)
+    pure (.list [.atom "fd", n, d, ← regTy ty r, dp, v, .list args])
+  | .list xs => do pure (.list (← xs.mapM (rewriteRty D)))
+  | x => pure x
+where
+  regTy (ty r : Sexp) : Except String Sexp :=
+    match AGV.Core.RustTy.decode? r, Decode.typeRef? ty with
+    | some t, some declared =>
+      if declared = (AGV.Spec.RustTy.ref t).toTypeRef then
+        .ok (typeRefS (AGV.Model.RustTy.created D t).toTypeRef)
+      else .error ("declared-type-is-not-what-the-rust-type-means: " ++ declared.render)
+    | _, _ => .error "bad-rust-type"
 
 -- ------------------------------------------------------------------ rendering the tree (same generic form as the harness)
 
@@ -135,7 +173,7 @@ def toggles (known : List String) : Defects :=
 
 def allIds : List String :=
   ["C18-hidden-type-referenced", "C18-interface-interfaces-null", "C18-possible-types-list-interface",
-   "C18-visible-interfaces-single-pass", "C18-dyn-interface-implements-dropped"]
+   "C18-visible-interfaces-single-pass", "C18-dyn-interface-implements-dropped", ptrFinding]
 
 def modelOut (D : Defects) (fl : Flavour) (d : Desc) (c : Nat) (sdl : Desc) : String :=
   let R := mkRegistry D fl d
@@ -148,14 +186,23 @@ def modelOut (D : Defects) (fl : Flavour) (d : Desc) (c : Nat) (sdl : Desc) : St
 def judge (known : List String) (case impl : String) : JudgeOut :=
   match parse case, parse impl with
   | some (.list [.atom "case", .atom fl, ds, tok]), some (.list [.atom "out", sdl, full, probes]) =>
-    match desc? ds, desc? sdl, asNat? tok with
-    | some d, some sdlD, some c =>
+    -- declared Rust types: `d` = what the declarations mean (specification side), `dP` = what the
+    -- crate registers for them while the pointer finding is in the tree (model side)
+    match rewriteRty {} ds, rewriteRty (rtyDefects [ptrFinding]) ds with
+    | .error e, _ => .viol e e
+    | _, .error e => .viol e e
+    | .ok dsS, .ok dsP =>
+    match desc? dsS, desc? dsP, desc? sdl, asNat? tok with
+    | some d, some dP, some sdlD, some c =>
       let fl := if fl == "dyn" then Flavour.dynamic else Flavour.static
       let implS := render full ++ " " ++ render probes
       let known := known.filter allIds.contains
+      let dOf := fun (ids : List String) => if ids.contains ptrFinding then dP else d
       let spec := modelOut Defects.none fl d c sdlD
-      let modelK := modelOut (toggles known) fl d c sdlD
-      let attrib := known.map (fun id => (id, modelOut (toggles (known.filter (· ≠ id))) fl d c sdlD))
+      let modelK := modelOut (toggles known) fl (dOf known) c sdlD
+      let attrib := known.map (fun id =>
+        let ids := known.filter (· ≠ id)
+        (id, modelOut (toggles ids) fl (dOf ids) c sdlD))
       let r := triage implS spec modelK attrib known
       -- the OPEN round-trip statement is evaluated on every case (on the repaired model)
       let R0 := mkRegistry Defects.none fl d
@@ -165,7 +212,7 @@ def judge (known : List String) (case impl : String) : JudgeOut :=
           decide (Spec.Introspect.buildClient (introspect Defects.none R0 c true) ≠ some (Spec.Introspect.restrict d vn c)) then
         .tie "roundtrip-statement-fails-on-this-case" ""
       else { r with model := "", spec := "" }
-    | _, _, _ => .viol "bad-case" "bad-case"
+    | _, _, _, _ => .viol "bad-case" "bad-case"
   | some _, some (.list [.atom "rejected", _]) => .viol "schema-rejected" ""
   | _, _ => .viol "bad-case" "bad-case"
 
